@@ -37,6 +37,6 @@ def main(tier, seed):
                         "runs whose reference outcome is `unspec` (left the specified fragment) are accepted and counted",
                         "error locations are compared by C15, not here"]
     return run.finish("model_checking",
-                      "programs = complete TLC-enumerated grammars (operator x operand-kind table: 2848; control nestings in a callee: 330) "
+                      "programs = complete TLC-enumerated grammars (operator x operand-kind table: 4009; control nestings in a callee: 330) "
                       "plus seeded generator profiles; each is compiled and run by the crate and executed step by step by the TLA+ "
                       "reference machine under TLC, which compares final globals, host-call log and outcome; distinct = distinct program texts")
